@@ -117,6 +117,18 @@ def gen(ctx):
                 via = "qfs" if rng.random() < 0.25 else "tdc"
                 desc = True if via == "qfs" else rng.random() < 0.5
                 cases.append(_tdc_case(sc, lab, desc, lk, sd, via, tags=("dtype", sd, "labels-" + lk)))
+    # integer dtypes at the ends of their range (negation / conversion corner cases)
+    rng = ctx.sub("int-extremes")
+    for sd, lo, hi in (("int8", -128, 127), ("uint8", 0, 255), ("int16", -32768, 32767), ("int32", -2 ** 24, 2 ** 24)):
+        for _ in range(20 if ctx.thorough else 8):
+            n = rng.randint(2, 24)
+            pool = [lo, lo, hi, hi, lo + 1, hi - 1, 0] + [rng.randint(lo, hi) for _ in range(6)]
+            sc = [rng.choice(pool) for _ in range(n)]
+            sc[rng.randrange(n)] = lo
+            sc[rng.randrange(n)] = hi
+            lab = [rng.randint(0, 1) for _ in range(n)]
+            for desc in (True, False):
+                cases.append(_tdc_case(sc, lab, desc, "bool", sd, "tdc", tags=("dtype", sd, "extremes")))
     # random, larger
     rng = ctx.sub("random")
     nr = 300 if ctx.thorough else 80
